@@ -79,5 +79,8 @@ func (p *Pubrel) Unpack(r io.Reader) error {
 	if !ValidateCode(PUBREL, p.Code) {
 		return codes.ErrProtocol
 	}
-	return p.Properties.Unpack(bufr, PUBREL)
+	if err := p.Properties.Unpack(bufr, PUBREL); err != nil {
+		return err
+	}
+	return endOfPacket(bufr)
 }
